@@ -7,6 +7,8 @@ import (
 	"fmt"
 
 	"github.com/titpetric/vuego/markdown"
+	"strings"
+	"sync"
 )
 
 // c20History: SEVERAL documents through ONE renderer value. What a document renders to is decided by the document alone: the same document
@@ -80,4 +82,58 @@ func c20HistoryReplay(r *Run, docs []string) {
 			r.Add(c)
 		}
 	}
+}
+
+// c20Concurrent: one renderer used by several goroutines at once (a server holding one renderer): every document comes out as it does
+// alone - no text, list item, destination or title of a document rendered at the same time shows in it. Each goroutine renders its own
+// documents (recognisable by their number) over and over; every result is compared with the same document rendered alone.
+func c20Concurrent(r *Run) {
+	rounds := 40
+	if r.Thorough() {
+		rounds = 400
+	}
+	const n = 8
+	docs := make([]string, n)
+	alone := make([]string, n)
+	for i := range docs {
+		docs[i] = fmt.Sprintf("# Title %02d\n\npara *em%02d* **strong%02d** [link%02d](http://x/%02d \"t%02d\") `code%02d`\n\n3. first-doc%02d\n4. second-doc%02d\n\n> quote%02d\n\n| h%02d |\n|---|\n| c%02d |\n", i, i, i, i, i, i, i, i, i, i, i, i)
+		var b bytes.Buffer
+		markdown.New(nil).RenderBytes(&b, []byte(docs[i]))
+		alone[i] = b.String()
+	}
+	shared := markdown.New(nil)
+	var mu sync.Mutex
+	var bad []string
+	var wg sync.WaitGroup
+	for g := 0; g < n; g++ {
+		wg.Add(1)
+		go func(g int) {
+			defer wg.Done()
+			for k := 0; k < rounds; k++ {
+				var b bytes.Buffer
+				var err error
+				func() {
+					defer func() {
+						if e := recover(); e != nil {
+							err = fmt.Errorf("panic: %v", e)
+						}
+					}()
+					err = shared.RenderBytes(&b, []byte(docs[g]))
+				}()
+				if err != nil || b.String() != alone[g] {
+					mu.Lock()
+					if len(bad) < 5 {
+						bad = append(bad, fmt.Sprintf("document %d, round %d, rendered while %d other goroutines render through the same renderer: %q (%v); alone: %q", g, k, n-1, b.String(), err, alone[g]))
+					}
+					mu.Unlock()
+				}
+			}
+		}(g)
+	}
+	wg.Wait()
+	c := &Case{Name: "one renderer, concurrent documents", Key: "concurrent", Input: map[string]any{"stream": "concurrent", "goroutines": n, "rounds": rounds}, Impl: map[string]any{"mismatches": len(bad)}, Oracle: &Verdict{OK: true}, Tags: []string{"stream:concurrent"}}
+	if len(bad) > 0 {
+		c.Oracle = &Verdict{OK: false, Class: "document-depends-on-concurrent-documents", Detail: strings.Join(bad, "\n")}
+	}
+	r.Add(c)
 }
